@@ -39,6 +39,7 @@ pub struct W {
     pub ops_lo: usize,
     pub ops_hi: usize,
     pub query_pct: usize,
+    pub region_pct: usize,
 }
 
 fn base() -> W {
@@ -74,6 +75,7 @@ fn base() -> W {
         ops_lo: 4,
         ops_hi: 30,
         query_pct: 6,
+        region_pct: 10,
     }
 }
 
@@ -88,7 +90,7 @@ pub fn weights(profile: &str) -> W {
             w.alt = 8;
             w.tiny_pct = 60;
             w.rep = 5;
-            w.query_pct = 35;
+            w.query_pct = 70;
             w.save = 6;
             w.margins = 8;
             w.modes = 8;
@@ -118,8 +120,11 @@ pub fn weights(profile: &str) -> W {
             w.c1 = 8;
             w.single_pct = 95;
             w.text = 10;
+            w.region_pct = 65;
+            w.scroll = 20;
         }
         "C06" => {
+            w.region_pct = 50;
             w.scroll = 40;
             w.margins = 14;
             w.abs = 14;
@@ -187,6 +192,7 @@ pub fn weights(profile: &str) -> W {
             w.resize_pct = 25;
             w.single_pct = 95;
             w.text = 10;
+            w.tiny_pct = 20;
         }
         "C20" => {
             w.strings = 40;
@@ -217,10 +223,11 @@ fn gen_char(rng: &mut Rng) -> char {
 }
 
 fn gen_text(rng: &mut Rng, cols: usize) -> String {
-    let n = match rng.weighted(&[40, 30, 20, 10]) {
+    let n = match rng.weighted(&[35, 25, 20, 10, 10]) {
         0 => 1,
         1 => rng.range(2, 5),
         2 => rng.range(cols.saturating_sub(1).max(1), cols + 2),
+        3 => cols,
         _ => rng.range(1, 3 * cols + 2),
     };
     if rng.chance(25) {
@@ -623,13 +630,13 @@ pub fn gen_fragment(rng: &mut Rng, w: &W, cols: usize, rows: usize) -> String {
     }
 }
 
-const COLS_SET: [usize; 11] = [1, 2, 3, 7, 8, 9, 10, 16, 17, 80, 100];
+const COLS_SET: [usize; 17] = [1, 2, 3, 7, 8, 9, 10, 15, 16, 17, 23, 24, 25, 32, 40, 80, 100];
 const ROWS_SET: [usize; 5] = [1, 2, 3, 5, 8];
 
 pub fn gen_size(rng: &mut Rng, w: &W) -> (usize, usize) {
     if rng.chance(w.tiny_pct) {
         (rng.range(1, 6), rng.range(1, 5))
-    } else if rng.chance(70) {
+    } else if rng.chance(55) {
         (rng.range(1, 20), rng.range(1, 8))
     } else {
         (*rng.pick(&COLS_SET), *rng.pick(&ROWS_SET))
@@ -660,11 +667,81 @@ fn gen_feed(rng: &mut Rng, w: &W, cols: usize, rows: usize) -> String {
     }
 }
 
+/// a fragment from a small alphabet of state-changing commands with small parameters: the mode /
+/// margin / saved-context / screen-switch state machine is explored much more densely than by the
+/// general grammar (ordered combinations such as DECOM, DECSC, DECSTBM, DECRC become likely)
+fn gen_soup_fragment(rng: &mut Rng, cols: usize, rows: usize) -> String {
+    match rng.below(16) {
+        0 => format!("\u{1b}[?6{}", *rng.pick(&['h', 'l'])),
+        1 => format!("\u{1b}[?7{}", *rng.pick(&['h', 'l'])),
+        2 => rng.pick(&["\u{1b}7", "\u{1b}[s", "\u{1b}[?1048h"]).to_string(),
+        3 => rng.pick(&["\u{1b}8", "\u{1b}[u", "\u{1b}[?1048l"]).to_string(),
+        4 => {
+            if rows >= 2 {
+                let t = rng.range(1, rows - 1);
+                let b = rng.range(t + 1, rows);
+                format!("\u{1b}[{};{}r", t, b)
+            } else {
+                "\u{1b}[r".into()
+            }
+        }
+        5 => "\u{1b}[r".into(),
+        6 => format!("\u{1b}[{};{}H", rng.range(1, rows), rng.range(1, cols)),
+        7 => format!("\u{1b}[?{}h", *rng.pick(&[47usize, 1047, 1049])),
+        8 => format!("\u{1b}[?{}l", *rng.pick(&[47usize, 1047, 1049])),
+        9 => format!("\u{1b}[4{}", *rng.pick(&['h', 'l'])),
+        10 => {
+            let n = rng.range(1, cols + 1);
+            (0..n).map(|_| gen_char(rng)).collect()
+        }
+        11 => rng.pick(&["\n", "\u{1b}M", "\r", "\u{8}", "\t"]).to_string(),
+        12 => format!("\u{1b}[{}{}", rng.range(1, rows.max(cols)), *rng.pick(&['A', 'B', 'C', 'D', 'd', 'G'])),
+        13 => gen_sgr(rng),
+        14 => rng.pick(&["\u{1b}[!p", "\u{e}", "\u{f}", "\u{1b}(0", "\u{1b}[?25l", "\u{1b}[?1h", "\u{1b}[20h", "\u{1b}H", "\u{1b}[3g"]).to_string(),
+        _ => gen_edit(rng, cols),
+    }
+}
+
+/// one instance, ops drawn from the small state-machine alphabet (with resizes and queries)
+fn case_soup(rng: &mut Rng, w: &W, out: &mut impl Write) {
+    let (mut cols, mut rows) = (rng.range(1, 8), rng.range(1, 6));
+    let limit = gen_limit(rng, w);
+    writeln!(out, "N 0 {} {} {}", cols, rows, lim_tok(limit)).unwrap();
+    let nops = rng.range(6, 40);
+    for _ in 0..nops {
+        if rng.chance(w.resize_pct / 2) {
+            cols = rng.range(1, 8);
+            rows = rng.range(1, 6);
+            writeln!(out, "R 0 {} {}", cols, rows).unwrap();
+        } else {
+            let s = gen_soup_fragment(rng, cols, rows);
+            writeln!(out, "S 0 {}", hex_encode(&s)).unwrap();
+        }
+        if rng.chance(w.query_pct) {
+            match rng.weighted(&[70, 10, 10, 10]) {
+                0 => writeln!(out, "DUMP 0").unwrap(),
+                1 => writeln!(out, "TEXT 0").unwrap(),
+                2 => writeln!(out, "UNWRAP 0").unwrap(),
+                _ => writeln!(out, "CHUNKS 0 {}", rng.below(rows)).unwrap(),
+            }
+        }
+    }
+}
+
 /// one instance, random ops
 fn case_generic(rng: &mut Rng, w: &W, out: &mut impl Write) {
     let (mut cols, mut rows) = gen_size(rng, w);
     let limit = gen_limit(rng, w);
     writeln!(out, "N 0 {} {} {}", cols, rows, lim_tok(limit)).unwrap();
+    if rng.chance(w.region_pct) && rows >= 2 {
+        // start inside a scroll region (often with top > 1), half of the time with origin mode on
+        let t = rng.range(1, rows - 1);
+        let b = rng.range(t + 1, rows);
+        writeln!(out, "S 0 {}", hex_encode(&format!("\u{1b}[{};{}r", t, b))).unwrap();
+        if rng.chance(50) {
+            writeln!(out, "S 0 {}", hex_encode("\u{1b}[?6h")).unwrap();
+        }
+    }
     let nops = rng.range(w.ops_lo, w.ops_hi);
     for _ in 0..nops {
         if rng.chance(w.resize_pct) {
@@ -692,7 +769,7 @@ fn case_generic(rng: &mut Rng, w: &W, out: &mut impl Write) {
         }
         // queries: dump / text / unwrapped lines / chunks (C01: every public query returns normally)
         if rng.chance(w.query_pct) {
-            match rng.below(4) {
+            match rng.weighted(&[55, 15, 15, 15]) {
                 0 => writeln!(out, "DUMP 0").unwrap(),
                 1 => writeln!(out, "TEXT 0").unwrap(),
                 2 => writeln!(out, "UNWRAP 0").unwrap(),
@@ -746,7 +823,9 @@ fn printable_line(rng: &mut Rng, cols: usize) -> String {
             s.push(char::from_u32(*rng.pick(&WS_CHARS)).unwrap());
         }
     }
-    s
+    // C09 is about printable characters: U+0085 (NEL) is White_Space but also a C1 control that
+    // breaks the line, so it must not occur inside an expected line
+    s.chars().map(|c| if c == '\u{85}' { '\u{2000}' } else { c }).collect()
 }
 
 /// C09: printable lines + CR LF at two geometries
@@ -807,7 +886,14 @@ fn case_c11(rng: &mut Rng, w: &W, out: &mut impl Write) {
     let limit = gen_limit(rng, w);
     writeln!(out, "N 0 {} {} {}", cols, rows, lim_tok(limit)).unwrap();
     let nops = rng.range(1, 14);
-    history(rng, w, &[0], &mut cols, &mut rows, nops, out);
+    if rng.chance(45) {
+        for _ in 0..nops + 6 {
+            let s = gen_soup_fragment(rng, cols, rows);
+            writeln!(out, "S 0 {}", hex_encode(&s)).unwrap();
+        }
+    } else {
+        history(rng, w, &[0], &mut cols, &mut rows, nops, out);
+    }
     if rng.chance(50) {
         // cut inside a sequence
         let mut w2 = w.clone();
@@ -1027,6 +1113,13 @@ pub fn generate(profile: &str, seed: u64, ncases: usize, tier: &str, out: &mut i
             "C14" => case_c14(&mut rng, &w, out),
             "C16" => case_c16(&mut rng, &w, out),
             "C19" => case_c19(&mut rng, &w, out),
+            "C01" | "C02" | "C05" | "C17" | "C15" | "C13" => {
+                if i % 3 == 2 {
+                    case_soup(&mut rng, &w, out)
+                } else {
+                    case_generic(&mut rng, &w, out)
+                }
+            }
             _ => case_generic(&mut rng, &w, out),
         }
         writeln!(out, "END").unwrap();
